@@ -3,6 +3,8 @@ package main
 import (
 	"fmt"
 	"os"
+	"sort"
+	"strings"
 )
 
 func main() {
@@ -29,6 +31,37 @@ func main() {
 		os.Exit(cmdVC(os.Args[2:]))
 	case "replay":
 		os.Exit(cmdReplay(os.Args[2:]))
+	case "funcs":
+		// every function of the repository with a body, and whether it is under contract
+		p, err := LoadProgram(repoDir())
+		if err != nil {
+			fmt.Fprintln(os.Stderr, err)
+			os.Exit(2)
+		}
+		specs, err := LoadSpecs(repoDir(), specDir())
+		if err != nil {
+			fmt.Fprintln(os.Stderr, err)
+			os.Exit(2)
+		}
+		var names []string
+		for n, f := range p.Funcs {
+			if f.Pkg == nil || !strings.HasPrefix(f.Pkg.Pkg.Path(), modPath) || len(f.Blocks) == 0 {
+				continue
+			}
+			names = append(names, n)
+		}
+		sort.Strings(names)
+		for _, n := range names {
+			k := "-"
+			if c := specs.Contracts[n]; c != nil {
+				k = c.Kind
+				if k == "" {
+					k = "verified"
+				}
+				k += " " + strings.Join(c.Props, ",")
+			}
+			fmt.Printf("%-70s %s\n", n, k)
+		}
 	default:
 		fmt.Fprintln(os.Stderr, "unknown command")
 		os.Exit(2)
